@@ -3,10 +3,10 @@ from vq.meta import _m
 _m(
     "C08",
     "fault_enumeration",
-    "Hypothesis draws (object graph of 2-5 attributes with one nested AutoSerialize level or two, C01 value kinds; in 1 of 6 cases an "
+    "The search is stratified over all 26 combinations (store zip|dir x pre-existing target x mode w|o; 3 cases per worker and mode-o combination, 2 per mode-w combination in the quick tier, 10 / 4 in the thorough tier).  Within a stratum Hypothesis draws (object graph of 2-5 attributes with one nested AutoSerialize level or two, C01 value kinds; in 1 of 6 cases an "
     "unserialisable leaf - dill cannot pickle it - at a drawn position as attribute / list element / dict value) x store zip|dir x mode "
     "w|o x pre-existing target {absent, earlier successful save of another graph, earlier save of the other store kind at the same "
-    "path, unrelated regular file, unrelated non-empty directory} x zip path given with or without the .zip suffix and with dotted base names (run.v2, scan_0.5mrad, a.b.c) x fault timing "
+    "path, unrelated regular file, unrelated non-empty directory, archive with a second hard link, symlink to an archive, symlink to a directory store} x zip path given with or without the .zip suffix and with dotted base names (run.v2, scan_0.5mrad, a.b.c) x fault timing "
     "(before / after the operation) x exception type (cycled over the fault sites of each case: OSError ENOSPC, KeyboardInterrupt, RuntimeError, a custom Exception, SystemExit, MemoryError, GeneratorExit, a custom BaseException) x compression.  Each case is first saved "
     "un-faulted under counting wrappers to learn the number n of fault sites (calls of _serialize_value, _write_ndarray, _write_bytes, "
     "ZipFile.write), then re-saved from a fresh copy of the pre-state with the exception injected at EVERY site k = 1..n (exhaustive in "
@@ -19,7 +19,7 @@ _m(
         "'loads to a complete object' uses the C01 structural-equality oracle against the new graph and the earlier saved graph",
         "temp-file leaks are judged inside a per-process private TMPDIR",
     ],
-    workers=(1, 16),
+    workers=(4, 16),
     technique="fault injection with exhaustive fault-site enumeration per generated case (Hypothesis-generated graphs, pre-states and configurations; filesystem/load invariants as oracle)",
     text="For every generated case every injected-exception position among the serializer's write operations is enumerated exhaustively; the "
     "space of cases (graphs x configurations x pre-states) is sampled.",
